@@ -556,7 +556,10 @@ fn hash<T: ?Sized + Hash>(t: &T) -> u64 {
     let mut hasher = CaoHasher::default();
     t.hash(&mut hasher);
     let result = hasher.finish();
-    debug_assert_ne!(result, 0, "0 hash is reserved");
+    // 0 marks an empty bucket, so a key that hashes to 0 is moved to another (valid) hash
+    if result == 0 {
+        return 1 << 32;
+    }
     result
 }
 
